@@ -7,7 +7,9 @@ import (
 	"context"
 	"encoding/binary"
 	"encoding/json"
+	"errors"
 	"fmt"
+	"os"
 	"sort"
 	"time"
 
@@ -961,6 +963,7 @@ func runHamtInput(rep *Report, in HamtInput, cf *CaseFile) {
 		must(err)
 		sh.SetCidBuilder(cid.V1Builder{Codec: cid.DagProtobuf, MhType: multihash.SHA2_256})
 		expected := map[string]int{}
+		var hops []string
 		for _, op := range in.History {
 			e := HEntry{Name: op.Name, ID: op.ID, Tsize: int64(10 + op.ID)}
 			registerExt(entryCid(e), uint64(e.ID))
@@ -972,8 +975,13 @@ func runHamtInput(rep *Report, in HamtInput, cf *CaseFile) {
 				if _, ok := expected[op.Name]; ok {
 					must(sh.Remove(context.Background(), op.Name))
 					delete(expected, op.Name)
+				} else if rerr := sh.Remove(context.Background(), op.Name); !errors.Is(rerr, os.ErrNotExist) {
+					// the model of the reference (Hamt/RefModel.v) takes a Remove of an absent name as ErrNotExist, shard unchanged
+					fail("C08", "harness", "reference Remove of an absent name did not report ErrNotExist (harness)", "ErrNotExist", fmt.Sprint(rerr))
+					return
 				}
 			}
+			hops = append(hops, fmt.Sprintf("(%v, (%s, %s, %s, %d, %d))", op.Kind == "set", coqBytes([]byte(e.Name)), coqBytes(mhash(e.Name)), coqZ(e.Tsize), e.ID, entryCid(e).ByteLen()))
 		}
 		nd, err := sh.Node()
 		must(err)
@@ -997,7 +1005,8 @@ func runHamtInput(rep *Report, in HamtInput, cf *CaseFile) {
 			for i, f := range in.Faults {
 				fl[i] = fmt.Sprintf("(%d, %d)", f[0], f[1])
 			}
-			cf.Add(fmt.Sprintf("mk_hamt (HDump %s) None %s %s %s %s", coqBlk(dag), coqList(fl), coqList(obs.lookups), obs.iter, obs.length), in)
+			// the history itself goes to the model of the reference's Set / Remove, which has to arrive at these very blocks
+			cf.Add(fmt.Sprintf("mk_hamt (HRef %d %s %s) None %s %s %s %s", in.Fanout, coqList(hops), coqBlk(dag), coqList(fl), coqList(obs.lookups), obs.iter, obs.length), in)
 		}
 	}
 }
@@ -1432,14 +1441,23 @@ func scnHamt(rep *Report, rng *Rng, tier string, outdir string) {
 	} else if tier == "search" {
 		nHist = 40
 	}
-	for i := 0; i < nHist; i++ {
+	for i := 0; i < nHist+nHist; i++ {
 		f := fanouts[rng.Intn(len(fanouts))]
 		pool := names(10 + rng.Intn(40))
 		nops := 20 + rng.Intn(120)
+		rmOdds := 3
+		if i >= nHist {
+			// deep tries that shrink again: the smallest fanouts, more names, every second operation a Remove, so that
+			// forks, prunings and collapses of sub-shards left with one value all occur (compared block by block with Hamt/RefModel.v)
+			f = []int{8, 8, 16}[rng.Intn(3)]
+			pool = names(40 + rng.Intn(60))
+			nops = 80 + rng.Intn(160)
+			rmOdds = 2
+		}
 		var hist []HOp
 		for j := 0; j < nops; j++ {
 			nm := pool[rng.Intn(len(pool))]
-			if rng.Intn(3) == 0 {
+			if rng.Intn(rmOdds) == 0 {
 				hist = append(hist, HOp{Kind: "remove", Name: nm})
 			} else {
 				hist = append(hist, HOp{Kind: "set", Name: nm, ID: rng.Intn(60)})
